@@ -75,11 +75,16 @@ func (p *Program) modTypes(fn *ssa.Function, fc *FuncContract) []types.Type {
 	c := NewCtx(ModeInt, p.specs)
 	env := &Env{c: c, pkg: fn.Pkg.Pkg, vars: map[string]Val{}, mem: func(k, s string) string { return "M" }}
 	names := paramNames(fn, fc)
-	for i, par := range fn.Params {
-		v := Val{T: par.Type(), S: "x"}
-		env.vars[par.Name()] = v
+	var ptypes []types.Type
+	if r := fn.Signature.Recv(); r != nil {
+		ptypes = append(ptypes, r.Type())
+	}
+	for i := 0; i < fn.Signature.Params().Len(); i++ {
+		ptypes = append(ptypes, fn.Signature.Params().At(i).Type())
+	}
+	for i, t := range ptypes {
 		if i < len(names) {
-			env.vars[names[i]] = v
+			env.vars[names[i]] = Val{T: t, S: "x"}
 		}
 	}
 	var out []types.Type
@@ -208,6 +213,15 @@ func Load(ls LoadSpec) (*Program, error) {
 	for _, sf := range p.files {
 		for _, fc := range sf.Funcs {
 			sp := p.fcPkg[fc]
+			if fc.Extern {
+				fn := p.resolveExtern(sp, fc)
+				if fn == nil {
+					p.errs = append(p.errs, fmt.Sprintf("%s:%d: extern contract %q does not resolve", fc.File, fc.Line, fc.Key))
+					continue
+				}
+				p.contracts[fn] = fc
+				continue
+			}
 			fn := p.byKey[sp.Pkg.Path()+"|"+fc.Key]
 			if fn == nil {
 				// interface method contract?
@@ -304,6 +318,34 @@ func nonNilErrorValue(v ssa.Value) bool {
 		}
 	}
 	return false
+}
+
+// resolveExtern finds the method named by `extern func (r *pkg.T) M(...)` in a dependency.
+func (p *Program) resolveExtern(sp *ssa.Package, fc *FuncContract) *ssa.Function {
+	if fc.Decl.Recv == nil || len(fc.Decl.Recv.List) == 0 {
+		return nil
+	}
+	ts := types.ExprString(fc.Decl.Recv.List[0].Type)
+	env := &Env{pkg: sp.Pkg}
+	t := env.resolveType(ts)
+	if t == nil {
+		return nil
+	}
+	sel := types.NewMethodSet(t).Lookup(nil, fc.Decl.Name.Name)
+	if sel == nil {
+		// unexported or pointer-receiver method: try the pointer type and the defining package
+		if nt, ok := t.(*types.Named); ok {
+			sel = types.NewMethodSet(types.NewPointer(nt)).Lookup(nt.Obj().Pkg(), fc.Decl.Name.Name)
+		} else if pt, ok := t.(*types.Pointer); ok {
+			if nt, ok := pt.Elem().(*types.Named); ok {
+				sel = types.NewMethodSet(t).Lookup(nt.Obj().Pkg(), fc.Decl.Name.Name)
+			}
+		}
+	}
+	if sel == nil {
+		return nil
+	}
+	return p.prog.MethodValue(sel)
 }
 
 func (p *Program) sortedContracts() []*ssa.Function {
